@@ -709,7 +709,7 @@ func (c *Conn) close(ctx context.Context, msg *message.Disconnect) error {
 
 	c.wireConnMu.Lock()
 	defer c.wireConnMu.Unlock()
-	if err := c.wireConn.SendDisconnect(ctx, msg); err != nil {
+	if err := c.sendDisconnect(ctx, msg); err != nil {
 		if closeErr := c.wireConn.Close(); closeErr != nil {
 			c.logger.Warnf(ctx, "Failed to send Disconnect: %w", err)
 			return closeErr
@@ -720,6 +720,28 @@ func (c *Conn) close(ctx context.Context, msg *message.Disconnect) error {
 		return err
 	}
 	return c.wireConn.Close()
+}
+
+// disconnectTimeout bounds the time Close waits for the transport to accept the Disconnect message.
+var disconnectTimeout = 3 * time.Second
+
+// sendDisconnect writes the Disconnect message, but gives up when ctx ends or the transport does not accept
+// the message within disconnectTimeout (a peer that is alive but has stopped reading): the caller then closes
+// the wire connection, which also releases the pending write.
+func (c *Conn) sendDisconnect(ctx context.Context, msg *message.Disconnect) error {
+	wireConn := c.wireConn
+	done := make(chan error, 1)
+	go func() { done <- wireConn.SendDisconnect(ctx, msg) }()
+	timer := time.NewTimer(disconnectTimeout)
+	defer timer.Stop()
+	select {
+	case err := <-done:
+		return err
+	case <-ctx.Done():
+		return ctx.Err()
+	case <-timer.C:
+		return errors.New("timed out sending Disconnect")
+	}
 }
 
 // Closeは、コネクションを閉じます。
